@@ -272,9 +272,14 @@ def limits_list(model, owner, fn):
     if len(rets) == 1 and isinstance(rets[0].value, ast.List) and all(isinstance(e, ast.Constant) for e in rets[0].value.elts):
         return [e.value for e in rets[0].value.elts]
     # base class: every key of LIMITS_DEFAULT
-    src = ast.unparse(fn)
-    if "for key in LIMITS_DEFAULT" in src and "lims += [key]" in src.replace("append(key)", "+= [key]"):
-        return list(model.const_value("components", "LIMITS_DEFAULT").keys())
+    loops = [x for x in ast.walk(fn) if isinstance(x, ast.For)]
+    if len(loops) == 1 and isinstance(loops[0].target, ast.Name) and ast.unparse(loops[0].iter) in ("LIMITS_DEFAULT", "LIMITS_DEFAULT.keys()") \
+            and len(loops[0].body) == 1 and len(rets) == 1 and isinstance(rets[0].value, ast.Name):
+        b = loops[0].body[0]
+        k, acc = loops[0].target.id, rets[0].value.id
+        if (isinstance(b, ast.AugAssign) and ast.unparse(b).replace(" ", "") == "%s+=[%s]" % (acc, k)) or \
+                (isinstance(b, ast.Expr) and ast.unparse(b).replace(" ", "") == "%s.append(%s)" % (acc, k)):
+            return list(model.const_value("components", "LIMITS_DEFAULT").keys())
     if len(rets) == 1 and ast.unparse(rets[0].value) in ("list(LIMITS_DEFAULT)", "list(LIMITS_DEFAULT.keys())"):
         return list(model.const_value("components", "LIMITS_DEFAULT").keys())
     raise AnalysisError("%s._get_limits is not a constant list" % owner)
